@@ -144,7 +144,7 @@ def scene_case(spec):
         src = S.draw_inside(rng, cfg["dims"])
         shape = "shoebox"
         att = cfg["att"]
-    mode = "short" if spec["idx"] % 4 == 1 else "long"
+    mode = ["long", "short", "coarse", "tiny"][spec["idx"] % 4]
     c, dt, dur = P.draw_timing(rng, dict(dims=cfg["dims"]), K, mode, radi, src, [])
     tag = dict(shape=shape, n_patches=int(radi.n_patches), nb=nb, K=K, multi_dir=bool(multi), random_tables=bool(rand_t),
                src=np.asarray(src).tolist(), c=c, dt=dt, dur=dur, mode=mode, kind=kind,
@@ -205,7 +205,7 @@ def scene_case(spec):
 
 def run(res):
     quick = res.tier == "quick"
-    n = 12 if quick else 150
+    n = 16 if quick else 160
     specs = [dict(seed=res.seed, idx=i, kind=("poly" if i % 2 else "box"), max_patches=(16 if quick else 30)) for i in range(n)]
     for r in fw.run_parallel(scene_case, specs):
         res.absorb(r)
